@@ -223,7 +223,7 @@ func judgeC09(c *Ctx, sc *Scenario) *Violation {
 			}
 		}
 		if !hasDeclared {
-			for _, layout := range []string{"loose", "packed-refs", "packed", "bitmap"} {
+			for _, layout := range []string{"loose", "packed-refs", "packed", "bitmap", "promisor"} {
 				lw := w.Clone()
 				lw.Layout = layout
 				ls, err := Materialise(lw)
@@ -316,5 +316,5 @@ func init() {
 	}
 	comp["sizes.Graph (Graph-feed driver)"] = "real code fed through its exported API (RegisterBlob/Tree/Commit/Tag, HistorySize) without any process or pipe"
 	Register(&Prop{ID: "C09", Check: checkC09, Replay: judgeC09, Components: comp,
-		Rule: "(a) Graph-feed: small generated graphs (<= 6 trees, <= 6 commits, <= 5 tags) fed to sizes.Graph in every tree permutation, every tag permutation and every parents-first linear extension of the commits (bounded at 800 orders per dimension, counted as sampled beyond), each compared with the model; (b) metamorphic CLI runs: one world x >= 4 variants - adversarially drawn rev-list orders of commits and of trees/tags, chunkings and flush policies, permuted ROOT arguments, real git on loose / packed-refs / repacked / bitmapped-pack-plus-loose layouts, the same graph with other 10-digit commit dates - all numeric JSON v1 fields equal across variants and equal to the model. non-trivial: (a) >= 3 trees or >= 2 tags or >= 3 commits, (b) >= 4 variants and >= 4 reachable objects; distinct by scenario hash"})
+		Rule: "(a) Graph-feed: small generated graphs (<= 6 trees, <= 6 commits, <= 5 tags) fed to sizes.Graph in every tree permutation, every tag permutation and every parents-first linear extension of the commits (bounded at 800 orders per dimension, counted as sampled beyond), each compared with the model; (b) metamorphic CLI runs: one world x >= 4 variants - adversarially drawn rev-list orders of commits and of trees/tags, chunkings and flush policies, permuted ROOT arguments, real git on loose / packed-refs / repacked / bitmapped-pack-plus-loose / promisor-pack layouts, the same graph with other 10-digit commit dates - all numeric JSON v1 fields equal across variants and equal to the model. non-trivial: (a) >= 3 trees or >= 2 tags or >= 3 commits, (b) >= 4 variants and >= 4 reachable objects; distinct by scenario hash"})
 }
